@@ -8,7 +8,7 @@ structure State where
   st : St
   /-- printed with supply, admin, metadata and all balances -/
   watch : List Denom
-  /-- printed with the user balances only (ugrain: its supply inflates every block) -/
+  /-- printed with metadata and the user balances only (ugrain: its supply inflates every block) -/
   light : List Denom
 
 def init : State := ⟨St.genesis (fun _ _ => 0) (fun _ => 0) (fun _ => none) 0, [], []⟩
@@ -65,15 +65,15 @@ def parseAddrArg? (s : String) : Option AddrArg :=
 def parseBool? (s : String) : Option Bool :=
   if s == "1" then some true else if s == "0" then some false else none
 
-/-- `-` or `<0|1>:<tag>` -/
-def parseMd? (s : String) : Option (Option (Bool × Nat)) :=
-  if s == "-" then some none else
-  match s.splitOn ":" with
-  | [a, b] => do pure (some (← parseBool? a, ← parseNat? b))
-  | _ => none
-
 def parseBase? (s : String) : Option (Option Denom) :=
   if s == "-" then some none else (parseDenom? s).map some
+
+/-- metadata attached to `wcreate`: `-` or `<-|base>,<body>,<0|1>,<tag>` -/
+def parseMd? (s : String) : Option (Option WMeta) :=
+  if s == "-" then some none else
+  match s.splitOn "," with
+  | [b, y, a, t] => do pure (some ⟨← parseBase? b, ← parseDenom? y, ← parseBool? a, ← parseNat? t⟩)
+  | _ => none
 
 /-! ### output -/
 
@@ -104,7 +104,7 @@ def showBals (st : St) (d : Denom) (l : List Addr) : String :=
 def showState (s : State) : String :=
   let full := s.watch.map fun d =>
     s!"{s.st.supply d}|{showOptNat (s.st.admin d)}|{showOptNat (s.st.dmeta d)}|{showBals s.st d holders}"
-  let light := s.light.map fun d => showBals s.st d users
+  let light := s.light.map fun d => s!"{showOptNat (s.st.dmeta d)}|{showBals s.st d users}"
   " ".intercalate (full ++ light)
 
 def out (s : State) (r : St × Res) : State × String :=
@@ -149,9 +149,10 @@ def mkGenesis (fee : Nat) (bals : List (Addr × Denom × Nat)) (grants : List (A
   `mint|burn <mode> <signer> <creator> <denom> <amount>`
   `chadmin <mode> <signer> <creator> <denom> <newadmin>`
   `setmeta <mode> <signer> <creator> <denom> <mdok> <tag>`
-  `wcreate <contract> <subdenom> <-|mdok:tag>`
+  `wcreate <contract> <subdenom> <-|<-|base>,<body>,<mdok>,<tag>>`
   `wmint <contract> <denom> <amount> <to>`        `wburn <contract> <denom> <amount> <from>`
-  `wchadmin <contract> <denom> <newadmin>`         `wsetmeta <contract> <denom> <-|base> <mdok> <tag>`
+  `wchadmin <contract> <denom> <newadmin>`         `wsetmeta <contract> <denom> <-|base> <body> <mdok> <tag>`
+  (`base` = `metadata.base`, `body` = `metadata.display` = `metadata.denom_units[0].denom`)
   `send <from> <to> <denom> <amount>`              `grant|revoke <granter> <grantee>` -/
 def step (s : State) (args : List String) : State × String :=
   match args with
@@ -203,11 +204,11 @@ def step (s : State) (args : List String) : State × String :=
     match parseNat? a, parseDenom? d, parseAddrArg? new with
     | some a, some d, some new => out s (Paloma.TokenFactory.step s.st (.wchadmin a d new))
     | _, _, _ => (s, "bad-op")
-  | ["wsetmeta", a, d, base, ok, tag] =>
-    match parseNat? a, parseDenom? d, parseBase? base, parseBool? ok, parseNat? tag with
-    | some a, some d, some base, some ok, some tag =>
-      out s (Paloma.TokenFactory.step s.st (.wsetmeta a d base ok tag))
-    | _, _, _, _, _ => (s, "bad-op")
+  | ["wsetmeta", a, d, base, body, ok, tag] =>
+    match parseNat? a, parseDenom? d, parseBase? base, parseDenom? body, parseBool? ok, parseNat? tag with
+    | some a, some d, some base, some body, some ok, some tag =>
+      out s (Paloma.TokenFactory.step s.st (.wsetmeta a d base body ok tag))
+    | _, _, _, _, _, _ => (s, "bad-op")
   | ["send", a, b, d, amt] =>
     match parseNat? a, parseNat? b, parseDenom? d, parseInt? amt with
     | some a, some b, some d, some amt => out s (Paloma.TokenFactory.step s.st (.send a b d amt))
